@@ -235,8 +235,9 @@ def THIS(name):
 
 
 class Roles:
-    def __init__(self, cm):
+    def __init__(self, cm, lenient=False):
         self.cm = cm
+        self.anchor_problems = []
         r = ROLES.get(cm.name)
         if r is None:
             raise AnalysisIncomplete('G-ANCHOR: no model for container %s' % cm.name)
@@ -290,8 +291,11 @@ class Roles:
                 own = recs.get(rec_owner(cm.name, n))
                 if own is None or n not in [f.name for f in own.fields]:
                     probs.append('%s: element member %s not found in %s' % (cm.name, n, rec_owner(cm.name, n)))
-        if probs:
+        if probs and not (lenient and not any('m_lock' in p for p in probs)):
             raise AnalysisIncomplete('G-ANCHOR: ' + '; '.join(probs))
+        # lenient (lock analysis only): the behavioural model does not fit this representation, but which accesses happen under
+        # this->m_lock does not depend on it
+        self.anchor_problems = probs
         self.lock = THIS('m_lock')
         self.aux_kind = dict(r.get('aux', {}))
         self.ttl_struct = next((a for a, k in self.aux_kind.items() if k == 'ttl'), None)
